@@ -37,7 +37,13 @@ def generate(ctx, r, idx, build_only=False):
     if kind in ("recompile", "ttx", "subset", "scale", "reorder"):
         # binaries as they are, and fonts compiled from the corpus TTX files (they add table kinds and
         # CFF fonts without explicit FontMatrix etc. that the binaries lack)
-        if r.random() < 0.5:
+        q = r.random()
+        if q < 0.3:
+            # a table kind first, a font that has it second (rare kinds: COLR, SVG, AAT, bitmaps, Graphite ...)
+            bt = corpus.keys_by_tag()
+            k = r.choice(bt[r.choice(sorted(bt))])
+            h["input"] = k[4:] if k.startswith("bin:") else k
+        elif q < 0.65:
             h["input"] = r.choice(bins)
         else:
             for _ in range(40):
